@@ -262,6 +262,7 @@ func Load(o LoadOpts) (*Prog, error) {
 		}
 		sort.Strings(shorts)
 		for _, fn := range p.SrcFuncs(shorts...) {
+			p.Forwarded += devirtualiseThunkCalls(fn)
 			for i := 0; i < 6; i++ {
 				k := forwardPrivateStructs(fn)
 				p.Forwarded += k
@@ -347,7 +348,58 @@ func (p *Prog) Method(pkg, typ, name string) *types.Func {
 			}
 		}
 	}
+	// renamed (and perhaps given another signature)? an unexported helper is also recognised by its place:
+	// the one unexported method of the type that each of the listed exported methods calls
+	if callers, has := methodAnchorRoles[pkg+"."+typ+"."+name]; has && p.SSA != nil {
+		var common map[*types.Func]bool
+		for _, cn := range callers {
+			var cm *types.Func
+			for i := 0; i < n.NumMethods(); i++ {
+				if m := n.Method(i); m.Name() == cn {
+					cm = m
+				}
+			}
+			if cm == nil {
+				common = nil
+				break
+			}
+			sf := p.SSA.FuncValue(cm)
+			if sf == nil {
+				common = nil
+				break
+			}
+			here := map[*types.Func]bool{}
+			for _, call := range callsIn(sf) {
+				if sc := call.Common().StaticCallee(); sc != nil && sc.Signature.Recv() != nil && namedOf(sc.Signature.Recv().Type()) == n {
+					if f, isF := sc.Object().(*types.Func); isF && !token.IsExported(f.Name()) {
+						here[f] = true
+					}
+				}
+			}
+			if common == nil {
+				common = here
+			} else {
+				for f := range common {
+					if !here[f] {
+						delete(common, f)
+					}
+				}
+			}
+		}
+		if len(common) == 1 {
+			for f := range common {
+				p.RenamedAnchors = append(p.RenamedAnchors, pkg+"."+typ+"."+name+" -> "+f.Name()+" (the helper shared by "+strings.Join(callers, ", ")+")")
+				return f
+			}
+		}
+	}
 	panic(anchorLost{pkg + "." + typ + "." + name})
+}
+
+// methodAnchorRoles: unexported helper methods the rules are anchored on, with the exported methods that share
+// them (the place they are recognised by once their name is gone).
+var methodAnchorRoles = map[string][]string{
+	"boltz.TypedBucket.setMarshaled": {"PutMap", "PutList"},
 }
 
 // MethodOpt is Method without the panic.
